@@ -1,3 +1,4 @@
+import TantivyModel.Proofs.SSTable.WriterStoreOk
 import TantivyModel.Proofs.SSTable.FileWritten
 import TantivyModel.Proofs.SSTable.FileOrd
 import TantivyModel.Proofs.SSTable.WriterFull
@@ -1352,6 +1353,34 @@ theorem C15_void_file_ord_to_term (blockLen : Nat) (ks : List Key) (hs : StrictI
 
 example : fileOrdToTerm id (finishFile (frameBlocks [[16, 7, 17, 9]]) (u64enc 0) 2 3) 1 = some (some [7, 9]) ∧
     fileOrdToTerm id (finishFile (frameBlocks []) (u64enc 0) 0 3) 0 = some none := by decide
+
+/-- the 56-bit cut-off of `compute_num_bits` (beyond which `find_best_slope` would return a width
+of 65 and the store block would be corrupt) is never reached: for block addresses that chain, with
+non-negative byte ranges, non-decreasing first ordinals and offsets/ordinals below 2^55 (a 32 PiB
+file), every store block the writer flushes satisfies all conditions of `C15_writer_store_get` —
+the slope is a `u32`, indices are at most 129, so every deviation is below 2^55. Only the size of
+the store region itself (records and packed data below 2^64 bytes) is left as a hypothesis. -/
+theorem C15_writer_store_ok (addrs : List BlockAddr) (hch : Chained addrs)
+    (hle : ∀ a ∈ addrs, a.start ≤ a.stop)
+    (hsmall : ∀ a ∈ addrs, a.stop < 2 ^ 55 ∧ a.firstOrd < 2 ^ 55)
+    (hmono : (addrs.map (·.firstOrd)).Pairwise (· ≤ ·))
+    (hsize : META_SIZE * (writerStore addrs).length < 2 ^ 64)
+    (hoff : ∀ k, offsetOf (writerStore addrs) k < 2 ^ 64) : WriterStoreOk addrs :=
+  writerStoreOk_of_small addrs hch hle hsmall hmono hsize hoff
+
+/-- hence writer ∘ reader is the identity on the address list under plain size bounds -/
+theorem C15_writer_store_get_small (addrs : List BlockAddr) (hch : Chained addrs)
+    (hle : ∀ a ∈ addrs, a.start ≤ a.stop)
+    (hsmall : ∀ a ∈ addrs, a.stop < 2 ^ 55 ∧ a.firstOrd < 2 ^ 55)
+    (hmono : (addrs.map (·.firstOrd)).Pairwise (· ≤ ·))
+    (hsize : META_SIZE * (writerStore addrs).length < 2 ^ 64)
+    (hoff : ∀ k, offsetOf (writerStore addrs) k < 2 ^ 64) (id : Nat) (hid : id < addrs.length) :
+    (openStore (storeBytes (writerStore addrs))).get id = addrs[id]? :=
+  writer_store_get addrs hch (writerStoreOk_of_small addrs hch hle hsmall hmono hsize hoff) id hid
+
+example : maxDeviation (findBestSlope (rangeEls ⟨0, 0, 7⟩ [⟨1, 7, 14⟩] 14)).1 (rangeEls ⟨0, 0, 7⟩ [⟨1, 7, 14⟩] 14) < 2 ^ 56 ∧
+    (findBestSlope (rangeEls ⟨0, 0, 7⟩ [⟨1, 7, 14⟩] 14)).1 < 4294967296 ∧
+    META_SIZE * (writerStore [⟨0, 0, 7⟩, ⟨1, 7, 14⟩]).length < 2 ^ 64 := by decide
 
 /-! ## non-vacuity -/
 
